@@ -128,3 +128,57 @@ void h_Parameter_set_int(void)
   Parameter__set__vint_vsz(self, data, mk_dims());
   VF_CANARY();
 }
+
+/* ---------------------------------------------------------------- set(vector<string>, dims): bounded unit (<= 4 strings;
+ * the longest-string loop is unwound).  Strings gain a leading dimension equal to the longest string. */
+#define OLD_SDIM(i) __CPROVER_old(self->_dimension.data[(i) < self->_dimension.size ? (i) : 0])
+#define SLEN(i) ((i) < data->size ? data->data[i].size : 0)
+void contract_Parameter__set__vstr_vsz(struct Parameter *self, const vf_vec_string *data, const vf_vec_size_t *dimension)
+__CPROVER_requires(vf_exc == 0 && __CPROVER_rw_ok(self, sizeof(*self)) && __CPROVER_r_ok(data, sizeof(*data)) && data->size <= 4 &&
+                   __CPROVER_r_ok(data->data, 4 * sizeof(vf_string)) && VF_DIMS_OK(dimension) && dimension->size <= 6 &&
+                   VF_VEC_OK(self->_param_data_string, vf_string) &&
+                   self->_dimension.size <= 8 && __CPROVER_r_ok(self->_dimension.data, (self->_dimension.size ? self->_dimension.size : 1) * sizeof(size_t)))
+__CPROVER_requires(!vf_rec_called)
+__CPROVER_assigns(vf_exc, self->_data_type, self->_param_data_string.data, self->_param_data_string.size, self->_dimension.data, self->_dimension.size,
+                  vf_rec_n, vf_rec_dsize, vf_rec_dval, vf_rec_ret, vf_rec_called)
+__CPROVER_frees(self->_param_data_string.data, self->_dimension.data)
+/*@ C09 : Parameter_set_string.accepted-iff-predicate */
+__CPROVER_ensures(vf_rec_called && vf_rec_n == data->size && ((vf_exc == 0 && vf_rec_ret) || (vf_exc != 0 && !vf_rec_ret)))
+/*@ C09 C10 : Parameter_set_string.refused-with-range-error */ __CPROVER_ensures(vf_exc != 0 ==> vf_exc == VF_EXC_range_error)
+/*@ C09 : Parameter_set_string.type-is-char */ __CPROVER_ensures(vf_exc == 0 ==> self->_data_type == -1)
+/*@ C09 : Parameter_set_string.leading-dimension-is-longest-string */
+__CPROVER_ensures(vf_exc == 0 ==> (self->_dimension.size == (dimension->size == 0 ? 1 : dimension->size) + 1 &&
+                   self->_dimension.data[0] >= SLEN(0) && self->_dimension.data[0] >= SLEN(1) && self->_dimension.data[0] >= SLEN(2) &&
+                   self->_dimension.data[0] >= SLEN(3) &&
+                   (self->_dimension.data[0] == SLEN(0) || self->_dimension.data[0] == SLEN(1) || self->_dimension.data[0] == SLEN(2) ||
+                    self->_dimension.data[0] == SLEN(3))))
+/*@ C09 : Parameter_set_string.given-dimensions-follow */
+__CPROVER_ensures((vf_exc == 0 && dimension->size != 0 && vf_gd < dimension->size) ==> self->_dimension.data[vf_gd + 1] == dimension->data[vf_gd])
+/*@ C09 : Parameter_set_string.default-dimension-is-count */
+__CPROVER_ensures((vf_exc == 0 && dimension->size == 0) ==> self->_dimension.data[1] == data->size)
+/*@ C09 : Parameter_set_string.values-stored */ __CPROVER_ensures(vf_exc == 0 ==> self->_param_data_string.size == data->size)
+/*@ C10 C09 : Parameter_set_string.refused-leaves-type */ __CPROVER_ensures(vf_exc != 0 ==> self->_data_type == __CPROVER_old(self->_data_type))
+/*@ C10 C09 : Parameter_set_string.refused-leaves-values */
+__CPROVER_ensures(vf_exc != 0 ==> (self->_param_data_string.size == __CPROVER_old(self->_param_data_string.size) &&
+                                    self->_param_data_string.data == __CPROVER_old(self->_param_data_string.data)))
+/*@ C10 C09 : Parameter_set_string.refused-leaves-dimensions */
+__CPROVER_ensures(vf_exc != 0 ==> (self->_dimension.size == __CPROVER_old(self->_dimension.size) &&
+                                    self->_dimension.data == __CPROVER_old(self->_dimension.data) &&
+                                    (vf_gd < self->_dimension.size ==> self->_dimension.data[vf_gd] == OLD_SDIM(vf_gd))));
+
+void h_Parameter_set_string(void)
+{
+  struct Parameter *self = mk_parameter();
+  vf_vec_string *data = (vf_vec_string *)vf_alloc(sizeof(*data));
+  size_t n = nondet_size_t();
+  __CPROVER_assume(n <= 4);
+  data->size = n;
+  data->data = (vf_string *)vf_alloc(4 * sizeof(vf_string));
+  for (int i = 0; i < 4; ++i)
+    vf_mk_string(&data->data[i]);
+  vf_vec_size_t *dims = mk_dims();
+  __CPROVER_assume(dims->size <= 6);
+  vf_rec_called = 0;
+  Parameter__set__vstr_vsz(self, data, dims);
+  VF_CANARY();
+}
